@@ -31,11 +31,11 @@ def traceOracle (U : Universe) (P : Problem) (r : ImplSolve) : List String :=
   match Resolvo.Abs.runOpt U P events with
   | none =>
     (match Resolvo.Abs.run U P events with
-     | .error (k, ev) => [s!"oracle-fail C01,C02,C03,C05 trace: event {k} of the solver history is not a legal step of the abstract system: {repr ev}".replace "\n" " "]
-     | .ok _ => ["oracle-fail C01,C02,C03,C05 trace: history rejected"])
+     | .error (k, ev) => [s!"oracle-fail C01,C02,C03,C05,C15 trace: event {k} of the solver history is not a legal step of the abstract system: {repr ev}".replace "\n" " "]
+     | .ok _ => ["oracle-fail C01,C02,C03,C05,C15 trace: history rejected"])
   | some st =>
     if r.result == "unsat" && st.failed.isNone then
-      ["oracle-fail C01,C02,C03,C05 trace: Unsolvable reported without a root-level falsified clause in the history"]
+      ["oracle-fail C01,C02,C03,C05,C15 trace: Unsolvable reported without a root-level falsified clause in the history"]
     else
       -- C03: the clauses the Conflict blames must, on their own, refute the root
       let blamed := r.conflictClauses.map (fun c => (st.db.getD c default).lits)
@@ -96,7 +96,7 @@ def oracleSolve (U : Universe) (P : Problem) (cfg : String) (r : ImplSolve) (pri
     let sel := r.solution
     let exempt := P.soft.filter (fun s => sel.contains s)
     let o1 := if validB U P sel exempt then [] else
-      [s!"oracle-fail C01,C10,C13,C14 valid: solution [{natList sel}] violates {validWhy U P sel exempt}"]
+      [s!"oracle-fail C01,C10,C13,C14,C15 valid: solution [{natList sel}] violates {validWhy U P sel exempt}"]
     let o2 := if solvable then [] else [s!"oracle-fail C02,C10,C13,C14,C15 verdict: implementation returned a solution but the hard problem has none (decideSolvable=false)"]
     let o5 := if supportedB U P sel then [] else
       [s!"oracle-fail C05 supported: solution [{natList sel}] contains a solvable not reachable from the root/soft requirements (supported: [{natList (supportClosure U P sel)}])"]
@@ -253,7 +253,7 @@ def runSolve (lines : List String) : List String :=
     let impls := parseImpl implLines
     let sync := cfgGet cfg "mode" == "sync" && cfgGet cfg "sortpeeks" != "1"
     -- asynchronous provider with synchronous filter/sort: the exact model follows the executor's completion order
-    let asyncExact := cfgGet cfg "mode" == "async" && cfgGet cfg "gatefs" != "1" && cfgGet cfg "sortpeeks" != "1"
+    let asyncExact := cfgGet cfg "mode" == "async" && cfgGet cfg "sortpeeks" != "1"
     let rec go (ps : List Problem) (is : List ImplSolve) (k : Nat) (ms : Resolvo.MDet.S) (prior : List String) (acc : List String) : List String :=
       match ps, is with
       | p :: ps', i :: is' =>
@@ -261,7 +261,7 @@ def runSolve (lines : List String) : List String :=
             let fuel := 400 + 40 * (U.solvs.length + U.vsets.length) * (U.solvs.length + 4)
             let sched := (i.events.filter (·.startsWith "complete ")).map (fun e => (e.drop 9).toString)
             let (o, ms') := Resolvo.MDet.solveRun U p (if asyncExact then 4 * fuel else fuel)
-              { ms with trace := [], asyncMode := asyncExact, sched := sched, aevents := [] }
+              { ms with trace := [], asyncMode := asyncExact, gateFs := cfgGet cfg "gatefs" == "1", sched := sched, aevents := [] }
             let newLog := (ms'.log.take (ms'.log.length - ms.log.length)).reverse
             -- the checked model: its own history and answer go through the verified checkers
             let chk := match Resolvo.MDet.checkOutcome U p o ms'.trace.reverse with
